@@ -1217,3 +1217,209 @@ def r11(cx):
                          % (what, end) + ''.join(' [%s]' % x for x in notes if ' does NOT close ' in x),
                          loc=body.loc(body.term(p[-1])), path=Q.render_path(body, p))
     cx.floor(n, 1, 'holders of a pipe() pair')
+
+
+BLOCK_SIGNALS = 'yash_env::subshell::BlockSignals'
+SIGMASK_OP = 'yash_env::system::signal::SigmaskOp'
+SIGMASK_CALL = ['*::Sigmask::sigmask']
+MASK_FLOW = [re.compile(r'::(clone|to_owned|borrow|as_ref|deref|into|from)$')] + Q.PROPAGATING_CALLS + Q.AWAIT_CALLS
+
+
+def _sigmask_request(body, du, t):
+    """Decode `sigmask(op_and_mask, old_mask)`: (op variant | 'none' | '?', operand of the mask given, local that receives the
+    old mask | None)."""
+    op, given, old = '?', None, None
+    a1 = du.origin(t['a'][1]) if len(t['a']) > 1 else {'k': '?'}
+    if a1['k'] == 'agg' and a1['rv'].get('adt') == 'core::option::Option':
+        if a1['rv'].get('variant') == 'None':
+            op = 'none'
+        elif a1['rv']['ops']:
+            tup = du.origin(a1['rv']['ops'][0])
+            if tup['k'] == 'agg' and tup['rv'].get('ak') == 'tuple' and len(tup['rv']['ops']) == 2:
+                o = du.origin(tup['rv']['ops'][0])
+                if o['k'] == 'agg' and o['rv'].get('adt') == SIGMASK_OP:
+                    op = o['rv'].get('variant')
+                elif o['k'] == 'const' and (o['o'].get('cdef') or '').startswith(SIGMASK_OP + '::'):
+                    op = o['o']['cdef'].split('::')[-1]
+                given = tup['rv']['ops'][1]
+    a2 = du.origin(t['a'][2]) if len(t['a']) > 2 else {'k': '?'}
+    if a2['k'] == 'agg' and a2['rv'].get('adt') == 'core::option::Option' and a2['rv'].get('variant') == 'Some' and a2['rv']['ops']:
+        r = du.origin(a2['rv']['ops'][0])
+        hops = 0
+        while r['k'] == 'ref' and hops < 4:
+            pl = r['pl']
+            if (pl.get('p') or []) == ['*']:          # reborrow `&mut *tmp`
+                r = du.origin_place({'l': pl['l']})
+                hops += 1
+                continue
+            if not pl.get('p'):
+                old = pl['l']
+            break
+    return op, given, old
+
+
+def _reaches_local(body, du, operand, targets, depth=6):
+    """The operand is (a borrow / copy of) one of the locals `targets`."""
+    l = Q.operand_local(operand)
+    if l in targets:
+        return True
+    o = du.origin(operand)
+    while depth > 0 and o['k'] == 'ref':
+        pl = o['pl']
+        if pl['l'] in targets and not [e for e in pl.get('p') or [] if e != '*']:
+            return True
+        if (pl.get('p') or []) == ['*']:
+            o = du.origin_place({'l': pl['l']})
+            depth -= 1
+            continue
+        break
+    return False
+
+
+@RS.rule('C08.R12', 'K-TABLE+K-TAINT', 'the signal mask the parent has after starting a subshell is the one it had before: for every implementation '
+         'of BlockSignals, block_sigint_sigquit ADDS {SIGINT, SIGQUIT} to the mask and returns the previous mask reported by that very sigmask call, '
+         'restore_sigmask installs (SigmaskOp::Set) exactly the value it is given, on every path; delegating implementations pass the value through '
+         'unchanged; Config::start hands the value saved by the block step to the restore step')
+def r12(cx):
+    F = cx.F
+    impls = [im for im in F.impls if im.get('trait_def') == BLOCK_SIGNALS]
+    cx.require(impls, 'no implementation of %s' % BLOCK_SIGNALS)
+    cx.floor(len(impls), 3, 'implementations of BlockSignals (blanket over Sigmask, Concurrent, Rc<Concurrent>)')
+    cx.require(SIGMASK_OP in F.adts and {v['name'] for v in F.adts[SIGMASK_OP]['variants']} >= {'Add', 'Set'}, 'SigmaskOp::{Add, Set} not found')
+    n_prim = 0
+    for im in impls:
+        items = {it['name']: it['def'] for it in im['items'] if it['kind'] == 'Fn'}
+        cx.require('block_sigint_sigquit' in items and 'restore_sigmask' in items, 'BlockSignals impl for %s lacks block/restore' % im['self'])
+        who = im['self']
+        # ---------------- block step
+        fnb = items['block_sigint_sigquit']
+        bb = F.inlined(F.main_body(fnb))
+        cx.fn(bb.fn)
+        du = Q.DefUse(bb)
+        prim = Q.find_calls(bb, SIGMASK_CALL)
+        dele = Q.find_calls(bb, ['*::BlockSignals::block_sigint_sigquit'])
+        oks = Q.find_aggregates(bb, 'core::result::Result', 'Ok')
+        oks = [(b, j, s) for b, j, s in oks if s['lhs']['l'] == 0 and not s['lhs'].get('p')]
+        if prim:
+            n_prim += 1
+            olds, ops = set(), []
+            for b, t in prim:
+                op, given, old = _sigmask_request(bb, du, t)
+                ops.append(op)
+                if old is not None:
+                    olds.add(old)
+                sigs = set()
+                if given is not None:
+                    # the set given: built by Sigset::from_signals / insert from named signal constants
+                    for b2, j2, s2 in bb.stmts():
+                        if s2['k'] == 'assign' and s2['rv']['k'] == 'agg' and s2['rv'].get('ak') == 'array':
+                            sigs |= {o.get('cdef', '?').split('::')[-1] for o in s2['rv']['ops']}
+                    for b2, t2 in Q.find_calls(bb, ['*::Sigset::insert']):
+                        sigs |= {(a.get('cdef') or '?').split('::')[-1] for a in t2['a'][1:]}
+                cx.site('%s [%s]: sigmask(op=%s, signals=%s, old mask -> %s) at %s' % (bb.fn, who, op, sorted(sigs), bb.local_name(old) if old is not None else None, bb.loc(t)))
+                if op not in ('Add', 'none'):
+                    cx.violation(fnb, 'block-op:%s' % op, 'block_sigint_sigquit changes the signal mask with SigmaskOp::%s: only Add keeps every signal that '
+                                 'was blocked before blocked while the child is forked' % op, loc=bb.loc(t))
+                if op == 'Add' and sigs != {'SIGINT', 'SIGQUIT'}:
+                    cx.violation(fnb, 'block-signals', 'block_sigint_sigquit must add exactly SIGINT and SIGQUIT to the mask, found %s' % sorted(sigs), loc=bb.loc(t))
+            if 'Add' not in ops:
+                cx.violation(fnb, 'block-op-missing', 'block_sigint_sigquit no longer adds SIGINT/SIGQUIT to the signal mask (SigmaskOp::Add)', loc=bb.loc(bb.d))
+            taint = Q.forward_taint(bb, set(olds), through_calls=MASK_FLOW) if olds else set()
+            if not oks:
+                cx.violation(fnb, 'block-no-ok', 'block_sigint_sigquit has no Ok(saved mask) exit', loc=bb.loc(bb.d))
+            for b, j, s in oks:
+                v = s['rv']['ops'][0] if s['rv']['ops'] else None
+                good = v is not None and Q.operand_local(v) in taint
+                cx.site('%s [%s]: returns Ok(%s) at %s; is the previous mask written by sigmask: %s' % (bb.fn, who, Q.operand_name(bb, du, v) if v else None, bb.loc(s), good))
+                if not good:
+                    cx.violation(fnb, 'saved-mask-not-the-previous-mask', 'the value block_sigint_sigquit returns for restore_sigmask is not the previous signal mask '
+                                 'reported by sigmask (its old-mask out-parameter): whatever restore does with it, it cannot bring back a mask in which '
+                                 'SIGINT or SIGQUIT was already blocked - after `trap "..." INT; cmd &` (job control off) the parent comes out of '
+                                 'Config::start with SIGINT unblocked and the trap is no longer delivered race-free', loc=bb.loc(s))
+        elif dele:
+            rw = Q.return_writers(bb)
+            ok = True
+            for w in rw:
+                # every write of the return place comes from the delegated call (possibly through `?` and Ok(..))
+                vals = []
+                for s in bb.blocks[w]['s']:
+                    if s['k'] == 'assign' and s['lhs']['l'] == 0:
+                        vals += list(Q.rvalue_operands(s['rv']))
+                tt = bb.term(w)
+                if tt['k'] == 'call' and tt['dest']['l'] == 0:
+                    vals += tt['a'][:1]
+                for v in vals:
+                    src = Q.value_source(bb, du, v)
+                    if src is None and du.origin(v)['k'] == 'agg':
+                        inner = du.origin(v)['rv']['ops']
+                        src = Q.value_source(bb, du, inner[0]) if inner else None
+                    if src is None or not Q.callee_is(src, ['*::BlockSignals::block_sigint_sigquit']):
+                        ok = False
+            cx.site('%s [%s]: delegates to %s at %s; result passed through unchanged: %s' % (bb.fn, who, pp.callee(dele[0][1]), bb.loc(dele[0][1]), ok))
+            if not ok or not rw:
+                cx.violation(fnb, 'delegate-block-result', 'the delegating block_sigint_sigquit does not return the saved mask of the inner system unchanged',
+                             loc=bb.loc(dele[0][1]))
+        else:
+            cx.site('%s [%s]: neither sigmask nor a delegated block_sigint_sigquit' % (bb.fn, who))
+            cx.violation(fnb, 'block-does-nothing', 'block_sigint_sigquit neither calls Sigmask::sigmask nor delegates to another BlockSignals', loc=bb.loc(bb.d))
+        # ---------------- restore step
+        fnr = items['restore_sigmask']
+        pl = _param_locals(F, fnr, 1)
+        cx.require(pl is not None, 'parameter `mask` of %s cannot be followed' % fnr)
+        rb0, mask_locals = pl
+        rb = F.inlined(rb0)
+        cx.fn(rb.fn)
+        du = Q.DefUse(rb)
+        mt = Q.forward_taint(rb, set(mask_locals), through_calls=MASK_FLOW)
+        prim = Q.find_calls(rb, SIGMASK_CALL)
+        dele = Q.find_calls(rb, ['*::BlockSignals::restore_sigmask'])
+        good_blocks = set()
+        if prim:
+            for b, t in prim:
+                op, given, old = _sigmask_request(rb, du, t)
+                from_param = given is not None and (_reaches_local(rb, du, given, mt) or Q.operand_local(given) in mt)
+                awaited = await_done(F, rb, du, t) is not None
+                cx.site('%s [%s]: sigmask(op=%s, mask is the saved value: %s, awaited: %s) at %s' % (rb.fn, who, op, from_param, awaited, rb.loc(t)))
+                if op == 'none':
+                    continue
+                if op != 'Set':
+                    cx.violation(fnr, 'restore-op:%s' % op, 'restore_sigmask applies SigmaskOp::%s instead of installing the saved mask (SigmaskOp::Set): a signal '
+                                 'that was blocked before block_sigint_sigquit (SIGINT/SIGQUIT with a command trap are kept blocked by the shell) comes out '
+                                 'of Config::start unblocked, resp. a signal unblocked in between stays blocked - the parent\'s mask after `cmd &` differs '
+                                 'from the mask before it' % op, loc=rb.loc(t))
+                elif not from_param:
+                    cx.violation(fnr, 'restore-other-mask', 'restore_sigmask installs a mask that is not the value saved by block_sigint_sigquit', loc=rb.loc(t))
+                elif not awaited:
+                    cx.violation(fnr, 'restore-not-awaited', 'the sigmask future of restore_sigmask is never awaited: the mask is not restored', loc=rb.loc(t))
+                else:
+                    good_blocks.add(b)
+        elif dele:
+            for b, t in dele:
+                through = len(t['a']) > 1 and Q.operand_local(t['a'][1]) in mt
+                awaited = await_done(F, rb, du, t) is not None
+                cx.site('%s [%s]: delegates to %s at %s; saved value passed through: %s, awaited: %s' % (rb.fn, who, pp.callee(t), rb.loc(t), through, awaited))
+                if through and awaited:
+                    good_blocks.add(b)
+                else:
+                    cx.violation(fnr, 'delegate-restore-arg', 'the delegating restore_sigmask does not pass the saved mask it is given to the inner system '
+                                 '(or does not await it)', loc=rb.loc(t))
+        else:
+            cx.site('%s [%s]: neither sigmask nor a delegated restore_sigmask' % (rb.fn, who))
+        p = Q.must_pass(rb, [0], good_blocks)
+        if p is not None and (good_blocks or not (prim or dele)):      # with no good site at all the reason was reported above
+            cx.violation(fnr, 'restore-skipped', 'restore_sigmask can return without installing the saved signal mask', loc=rb.loc(rb.term(p[-1])),
+                         path=Q.render_path(rb, p))
+    cx.floor(n_prim, 1, 'BlockSignals implementations that call Sigmask::sigmask themselves')
+    # ---------------- Config::start: what was saved is what is restored
+    body = F.main_body(CONFIG_START)
+    cx.fn(body.fn)
+    du = Q.DefUse(body)
+    blk = Q.find_calls(body, ['*::BlockSignals::block_sigint_sigquit'])
+    rst = Q.find_calls(body, ['*::BlockSignals::restore_sigmask'])
+    cx.site('%s: %d block_sigint_sigquit call(s), %d restore_sigmask call(s)' % (body.fn, len(blk), len(rst)))
+    if blk:
+        tb = Q.forward_taint(body, {t['dest']['l'] for b, t in blk}, through_calls=MASK_FLOW)
+        for b, t in rst:
+            if not (len(t['a']) > 1 and Q.operand_local(t['a'][1]) in tb):
+                cx.violation(CONFIG_START, 'restore-arg-not-saved-mask', 'Config::start restores a signal mask that is not the value returned by its '
+                             'block_sigint_sigquit call', loc=body.loc(t))
